@@ -1335,6 +1335,25 @@ def schema_contracts(specs):
                        'no list / dict / set built once per compiled module is handed to an expression or a '
                        'variable (each reach of a literal display builds a new object)',
                        {'template': s['text'], 'uses': shared}))
+        # C12: "followed by the enclosing template/macro call sites from innermost to outermost": every
+        # render function's handler APPENDS its record to rcontext['__error__'] (the innermost function
+        # handles first) and re-raises the exception as it is
+        badh = []
+        for fname_, fdef in em.functions.items():
+            for t in [x for x in fdef.body if isinstance(x, ast.Try)][-1:]:
+                for h in t.handlers:
+                    recs = [n for n in ast.walk(ast.Module(body=h.body, type_ignores=[]))
+                            if isinstance(n, ast.Call) and isinstance(n.func, ast.Attribute)
+                            and "'__error__'" in ast.unparse(n.func.value)]
+                    ok_ = (len(recs) == 1 and recs[0].func.attr == 'append'
+                           and ast.unparse(recs[0].func.value) == "rcontext.setdefault('__error__', [])"
+                           and isinstance(h.body[-1], ast.Raise) and h.body[-1].exc is None)
+                    if not ok_:
+                        badh.append('%s: %s' % (fname_, ast.unparse(h)[:200]))
+        static.append(('%s.handler.appends_record' % s['id'], not badh,
+                       "the handler of every emitted render function appends one record to "
+                       "rcontext['__error__'] and re-raises (records are ordered innermost first)",
+                       {'template': s['text'], 'handlers': badh}))
         static.append(('%s.handler.stream_frame' % s['id'], not bad,
                        'the exception handler of every emitted render function leaves the output stream '
                        'as it is (modifies nothing of __stream)', {'template': s['text'], 'statements': bad}))
